@@ -114,6 +114,9 @@ Proof.
   set (E := flat_map (enc_elem little (vty v)) vals).
   assert (HE : List.length E = vcount v * width (vty v)) by (unfold E; rewrite flat_map_enc_length; lia).
   rewrite <- HE. rewrite !firstn_app_exact. rewrite Nat.eqb_refl.
+  rewrite skipn_app_exact.
+  assert (Hck : forall X, List.length (firstn 4 (cks ++ X)) = 4) by (intros X; rewrite firstn_length, app_length; lia).
+  rewrite Hck. cbn [Nat.eqb orb andb].
   replace (List.length E + 4) with (List.length (E ++ cks)) by (rewrite app_length; lia).
   rewrite (app_assoc E cks). rewrite skipn_app_exact. rewrite IH by assumption.
   f_equal. f_equal. unfold E. rewrite Hc. rewrite <- (app_nil_r (flat_map _ vals)).
@@ -224,21 +227,25 @@ Proof.
   intros (t & ->) H. rewrite app_length in H. destruct t; [now rewrite app_nil_r|cbn in H; lia].
 Qed.
 
-(* decoding the variables from a prefix of the buffer fails or gives the same values *)
-Lemma decode_vars_prefix little : forall vars buf' buf,
-  is_prefix buf' buf ->
-  decode_vars little buf' vars = None \/ decode_vars little buf' vars = decode_vars little buf vars.
+(* decoding the variables from a prefix of a decodable buffer fails or gives the same values *)
+Lemma decode_vars_prefix little : forall vars buf' buf r,
+  is_prefix buf' buf -> decode_vars little buf vars = Some r ->
+  decode_vars little buf' vars = None \/ decode_vars little buf' vars = Some r.
 Proof.
-  induction vars as [|v vs IH]; intros buf' buf Hp; [now right|].
-  cbn [decode_vars]. set (cnt := vcount v * width (vty v)).
-  destruct (List.length (firstn cnt buf') =? cnt) eqn:E1; [|now left].
-  apply Nat.eqb_eq in E1.
+  induction vars as [|v vs IH]; intros buf' buf r Hp Hfull; [right; exact Hfull|].
+  cbn [decode_vars] in *. set (cnt := vcount v * width (vty v)) in *.
+  destruct ((List.length (firstn cnt buf') =? cnt) &&
+            ((List.length (firstn 4 (skipn cnt buf')) =? 0) || (List.length (firstn 4 (skipn cnt buf')) =? 4))) eqn:E1;
+    [|now left].
+  apply andb_true_iff in E1 as [E1 _]. apply Nat.eqb_eq in E1.
   assert (Hs : firstn cnt buf' = firstn cnt buf).
   { apply is_prefix_same_length; [now apply is_prefix_firstn|].
     rewrite E1. rewrite firstn_length in *. destruct Hp as (t & ->). rewrite app_length. lia. }
-  rewrite <- Hs, E1, Nat.eqb_refl.
-  destruct (IH (skipn (cnt + 4) buf') (skipn (cnt + 4) buf) (is_prefix_skipn _ _ _ Hp)) as [->| ->];
-    [now left|now right].
+  destruct ((List.length (firstn cnt buf) =? cnt) &&
+            ((List.length (firstn 4 (skipn cnt buf)) =? 0) || (List.length (firstn 4 (skipn cnt buf)) =? 4))); [|discriminate].
+  destruct (decode_vars little (skipn (cnt + 4) buf) vs) as [rt|] eqn:Et; [|discriminate].
+  destruct (IH (skipn (cnt + 4) buf') (skipn (cnt + 4) buf) rt (is_prefix_skipn _ _ _ Hp) Et) as [->| ->];
+    [now left|]. right. rewrite Hs. exact Hfull.
 Qed.
 
 (* A DAP4 response cut at ANY offset either fails to decode or decodes to exactly what the complete
@@ -266,6 +273,7 @@ Proof.
   { apply s2b_fuel; rewrite ?firstn_length; lia. }
   rewrite <- Es'.
   destruct (s2b_prefix _ _ (k - 4 - dl) _ Es) as [->|(b' & -> & Hp)]; [now left|].
-  destruct (decode_vars_prefix (chunk_little t) vars b' buf Hp) as [->| ->]; [now left|].
-  right. destruct (decode_vars (chunk_little t) buf vars); [exact H|discriminate].
+  destruct (decode_vars (chunk_little t) buf vars) as [vals|] eqn:Ev; [|discriminate].
+  destruct (decode_vars_prefix (chunk_little t) vars b' buf vals Hp Ev) as [->| ->]; [now left|].
+  right. exact H.
 Qed.
